@@ -99,8 +99,10 @@ CHECKS = {
             "level-(l-1) ones driven by the same scripted Brownian increment. For copula couplings (d=2,3) every "
             "fine state's kernel is measured by bisection on the coupling uniform and compared with the "
             "conditional law of the coarse cell given the fine cell (rows labelled all-even / all-odd / mixed "
-            "parity), and the telescoping identity is checked against a fresh level-0 chain. CouplingSDE: coarse "
-            "and fine driver drifts and epsilon = h^beta.",
+            "parity), and the telescoping identity is checked against a fresh level-0 chain. A third of the 1-d "
+            "histories advance with next_level(path_managers=None) (the way CouplingSDE drives it); the fine "
+            "diffusion coefficient is compared with a fresh chain on a copy of the level grid. CouplingSDE: coarse "
+            "and fine driver drifts, driver diffusion coefficients (against fresh chains) and epsilon = h^beta.",
             "Rates are those verified by C01; copula couplings restricted to finite-variation margins and small "
             "level-0 grids (<= 49 states in 2-d, 125 in 3-d), one refinement."),
     "C10": ("3/C10",
@@ -158,7 +160,7 @@ CHECKS = {
             "of sample values / consumed variates; enumerated worker-process configurations",
             "Exploration: the standard engine on the real LevyProcess (BS, Merton, HEM; fixed dates and jump "
             "times) and the multilevel engine on an RNG-consuming scripted coupling and on a real "
-            "CouplingMarkovChain are each run twice with the same seed after different amounts of prior RNG "
+            "CouplingMarkovChain (all six state samplers, incl. TABLE which draws from Python's generator) are each run twice with the same seed after different amounts of prior RNG "
             "consumption and under different clock values: stored samples must be bit-identical; within a run all "
             "samples must be pairwise distinct (shared variates show as equal values or repeated variate tuples "
             "across paths, passes and levels), pre-drawn rows must all be consumed, coarse(l) must differ from "
@@ -188,7 +190,9 @@ CHECKS = {
             "chains of every family and 2-d Clayton copula chains, with Constant (m x d), DiagX and Libor-type "
             "coefficient functions: the returned path must equal, step by step on the driver's own time grid, "
             "X_{i+1} = X_i + (b + a(t_i,X_i) mu) dt + a(t_i,X_i)(dW_i + dL_i) with the coefficient re-typed in the "
-            "harness, each component with the drift of its own level; constant a => x0 + a*Y_T, diag(x) => "
+            "harness, each component with the drift of a fresh chain built on an independently refined grid of its own "
+            "level (the coupling's stored drifts are compared with those, and in 1-d the fine/coarse diffusion "
+            "increments must be the fresh chains' coefficients times one Brownian path); constant a => x0 + a*Y_T, diag(x) => "
             "x0*prod(1+dY_i); epsilon = h^beta. Rate models: df(0)=1, positive, non-increasing, continuous at tenors "
             "and equal to simple compounding of the initial curve for 1..6 periods.",
             "Driver paths are the library's own random paths (numpy seeded per case), captured by a wrapper; the "
@@ -203,7 +207,9 @@ CHECKS = {
             "volume >= 0, the one-dimensional margins (through the library's margin operator) are the identity, the "
             "2-margins of 3-d copulas are 2-increasing; the Clayton conditional distribution is in [0,1], "
             "non-decreasing with limits 0 and 1 and the stated inverse inverts it in both orders; x_first_derivative is "
-            "compared with the 40-digit mixed partial of the formula times prod(u) (currently a listed known finding).",
+            "compared with the 40-digit mixed partial of the formula times prod(u) (currently a listed known finding); "
+            "one copula object evaluated on a generated sequence of vectors of dimension 2..4 must agree bitwise with "
+            "fresh objects (object-reuse histories).",
             "Rectangles have at most one infinite side (F is infinite only at (inf,..,inf)); the re-typed Clayton "
             "formula used for differentiation is first compared with the library's value at the point."),
     "C12": ("3/C12",
@@ -214,10 +220,11 @@ CHECKS = {
             "independent, dependent) the mass of generated rectangles not containing the origin must be >= 0, equal "
             "the general n-d formula on every sign pattern (incl. two straddling coordinates in 3-d), equal the "
             "harness reference (quadrature tail integrals + re-typed copula + own inclusion-exclusion), be additive "
-            "over a split along any axis (incl. splits at +-1e-3..1e-12 next to zero); marginal masses equal "
+            "over a split along any axis (incl. splits at +-1e-3..1e-12 next to zero and, in the sub-check "
+            "end-points-at-zero, at exactly zero: intervals (a,0] and (0,b] against one-sided limits); marginal masses equal "
             "quadrature of the marginal density and bound the off-axis mass; sub-margin masses equal the I-margins; "
             "the inverse tail integral inverts the tail integral both ways; a fresh model returns the same values.",
-            "'Split at zero' is approximated by splits at +-delta because tail integrals are defined on R minus {0}; "
+            "(a,0] contains the hyperplane x_k=0, so its reference mass is straddling minus positive piece; "
             "joint-density integration (dblquad) for Clayton is part of C01's copula sub-check."),
     "C17": ("3/C17",
             "model-based testing over operation lists on one Product object (evaluate path i / switch representation) "
@@ -229,7 +236,8 @@ CHECKS = {
             "representation, equal to a harness definition (time-weighted average within [min,max], performances, "
             "default time = first jump below the threshold by a reference scan, n-th default non-decreasing in n); "
             "call-put=forward, call spread and butterfly = call combinations, digital call+put=1, KI+KO=vanilla with "
-            "fresh and reused objects, vector strikes, notional linear.",
+            "fresh and reused objects, vector strikes, notional linear; every underlying class (all dimensions) as one "
+            "object valued on a sequence of paths with representation switches equals a fresh object bitwise.",
             "Barrier products are kept in identity representation (the barrier is compared with the raw path); "
             "LookBack raises by design and is excluded."),
     "C18": ("3/C18",
@@ -237,12 +245,14 @@ CHECKS = {
             "bounds, monotone, convex, digital, density) and differentials between COS, FFT, the Black-Scholes closed "
             "form and the VG/CGMY parametrisations; the admissible box is measured per case by a convergence sweep",
             "Exploration: for BS, HEM, Merton, VG and CGMY (five branches, y<=1.8), T in [0.1,3] and ladders of 3..9 "
-            "strikes in the inner 40% of the pricer's truncation range: call-put = df(F-K) with the model forward, "
-            "max(df(F-K),0) <= call <= df F, monotone and convex in K, digital in [0,df], decreasing and = -dC/dK, "
+            "strikes in the inner 40% of the pricer's truncation range (centred on the forward): call-put = df(F-K) with the model forward, "
+            "max(df(F-K),0) <= call <= df F, monotone and convex in K, digital in [0,df], decreasing, inside the one-sided "
+            "slopes of the call and = -dC/dK where the call is smooth at the step used, "
             "scalar = vector strikes, implied density >= 0 and of mass 1 (both up to the truncation error measured "
             "by the sweep), price() dispatch; COS = closed form on BS (1e-7), FFT = COS (1e-3, strikes >= 0.25 spot, "
-            "log-return stddev <= 0.8), VG = its CGMY parametrisation (1e-7). On smooth models (BS, HEM, Merton) a "
-            "failed sweep is itself a violation.",
+            "log-return stddev <= 0.8, integrand singularity >= 1 from the real axis), VG = its CGMY parametrisation "
+            "(1e-7). On smooth models (BS, HEM, Merton) a failed sweep is itself a violation. One COS / FFT pricer "
+            "object used for a generated sequence of calls at several maturities equals fresh pricers bitwise.",
             "'Provably below tolerance' is replaced by a measured sweep (n=10000,L=10) vs (n=40000,L=20): cases "
             "outside are counted as rejected; FFT comparisons are restricted to the domain where its fixed step and "
             "damping are adequate (documented probes)."),
